@@ -77,6 +77,60 @@ def render(seq, extmatch=True):
     return ''.join(out)
 
 
+def render_loose(seq, extmatch=True):
+    """The same AST written with as few backslashes as the grammar allows (EXTMATCH on; no BRACE, SPLIT, NEGATE, GLOBTILDE):
+    a character that is only special as part of a construct it cannot form here is left bare, e.g. `{`, `-`, `!` not followed by
+    `(`, a `(` that no `)` can close.  Every decision is conservative: when in doubt the character stays escaped."""
+    strict = render(seq, extmatch)
+    out = []
+    state = {'bare_open': False}
+
+    def emit(seq, depth, tail_has_close):
+        for idx, n in enumerate(seq):
+            k = n[0]
+            if k == 'lit':
+                c = n[1]
+                prev = out[-1][-1:] if out else ''
+                prev_escaped = len(out[-1]) == 2 and out[-1][0] == '\\' if out else False
+                nxt = seq[idx + 1] if idx + 1 < len(seq) else None
+                nxt_paren = nxt is not None and nxt[0] == 'lit' and nxt[1] == '('
+                if c in '{}~-':
+                    out.append(c)
+                elif c in '!+@' and extmatch:
+                    out.append(c if not nxt_paren else '\\' + c)
+                elif c == '(' and extmatch:
+                    after_ext = prev in '!?*+@' and not prev_escaped and prev != ''
+                    if not after_ext:
+                        out.append(c)
+                        state['bare_open'] = True
+                    elif depth == 0 and not tail_has_close and ')' not in render(seq[idx + 1:], extmatch).replace('\\)', ''):
+                        out.append(c)
+                        state['bare_open'] = True
+                    else:
+                        out.append('\\' + c)
+                elif c in ')|' and extmatch:
+                    out.append(c if depth == 0 and not state['bare_open'] else '\\' + c)
+                elif c in SPECIAL:
+                    out.append('\\' + c)
+                else:
+                    out.append(c)
+            elif k == 'any':
+                out.append('?')
+            elif k == 'star':
+                out.append('*')
+            elif k == 'set':
+                out.append(render_set(n))
+            else:
+                out.append(n[1] + '(')
+                for i, a in enumerate(n[2]):
+                    if i:
+                        out.append('|')
+                    emit(a, depth + 1, True)
+                out.append(')')
+    emit(seq, 0, False)
+    return ''.join(out)
+
+
 def render_plain(seq):
     """Render for a run WITHOUT EXTMATCH: group syntax characters are written unescaped and are literals there."""
     out = []
@@ -129,17 +183,20 @@ def merge_stars(seq):
     return tuple(out)
 
 
-def render_path(pp, extmatch=True):
+def render_path(pp, extmatch=True, loose=False, sep='/'):
+    """sep='\\/' writes every separator between segments as an escaped slash (same meaning)."""
     segs = []
     for s in pp.segs:
         if s == GS:
             segs.append('**')
         elif s == GSL:
             segs.append('***')
+        elif loose and extmatch:
+            segs.append(render_loose(s))
         else:
             segs.append(render(s, extmatch) if extmatch else render_plain(s))
-    sep = '/' * pp.dup
-    return ('/' if pp.absolute else '') + sep.join(segs) + ('/' if pp.trail else '')
+    joiner = sep * pp.dup
+    return ('/' if pp.absolute else '') + joiner.join(segs) + ('/' if pp.trail else '')
 
 
 # ---------------------------------------------------------------------------------------------- inspection
